@@ -153,6 +153,48 @@ def rule_named_functions():
     return _NAMED
 
 
+def _postfix_chain(txt):
+    """the text is one object designator - a name followed by subscripts, member selections, call arguments - so that selecting a
+    member of it needs no parentheses: an alias `at = atom[i]` makes at.x the cell atom[i].x"""
+    if not re.match(r'^[A-Za-z_]', txt):
+        return False
+    depth = 0
+    for ch in txt:
+        if ch in '([':
+            depth += 1
+        elif ch in ')]':
+            depth -= 1
+            if depth < 0:
+                return False
+        elif depth == 0 and not (ch.isalnum() or ch in '_.@#'):
+            return False
+    return depth == 0
+
+
+def unparen(txt):
+    """(atom[i]).x -> atom[i].x, (f_re)[Z] -> f_re[Z]: parentheses that the engine puts round the value of an alias before it
+    selects a member or an element of it"""
+    out, i = '', 0
+    while i < len(txt):
+        ch = txt[i]
+        if ch == '(' and (i == 0 or not (txt[i - 1].isalnum() or txt[i - 1] in '_)]')):
+            depth, j = 0, i
+            while j < len(txt):
+                depth += txt[j] in '(['
+                depth -= txt[j] in ')]'
+                if depth == 0:
+                    break
+                j += 1
+            inner = txt[i + 1:j]
+            if j + 1 < len(txt) and txt[j + 1] in '.[' and _postfix_chain(inner):
+                out += unparen(inner)
+                i = j + 1
+                continue
+        out += ch
+        i += 1
+    return out
+
+
 PURE_LIBM = {'sin', 'cos', 'tan', 'exp', 'log', 'sqrt', 'pow', 'fabs', 'asin', 'acos', 'atan', 'atan2', 'floor', 'ceil',
              'log10', 'sinh', 'cosh', 'fmax', 'fmin', 'abs'}
 ALLOCATORS = {'malloc', 'calloc', 'realloc', 'strdup', 'xrl_strdup', 'xrl_strndup', 'strndup', 'fopen'}
@@ -755,7 +797,8 @@ class Interp:
             if node.get('cls') in ('local', 'param') and node['id'] in st.env and node['id'] not in self.addr_taken \
                     and not node.get('dims'):
                 cv = st.env[node['id']].canon()
-                return cv if cv == node['name'] else '(' + cv + ')'
+                # an alias of a plain object name (cc = crystal) is that name: no parentheses, so that cc->a and crystal->a are one cell
+                return cv if (cv == node['name'] or re.match(r'^[A-Za-z_]\w*$', cv)) else '(' + cv + ')'
             if node.get('cls') == 'local' and (node.get('dims') or ('\0ver:' + node['name']) in st.mem):
                 ver = st.mem.get('\0ver:' + node['name'])
                 if ver is not None:
@@ -774,6 +817,8 @@ class Interp:
                         break
                 if ok and depth == 0 and inner.endswith(']'):      # the address of an array element (p = &a[i]; p->f is a[i].f)
                     base = inner
+            if base == getattr(self, 'receiver', None):
+                return node['field']        # the record that the twin method reads as `this`
             return '%s.%s' % (base, node['field'])
         if k == 'ArraySubscriptExpr':
             try:
@@ -931,6 +976,11 @@ class Interp:
                 self.types[s] = 'int'
                 return Rat.sym(s)
             raise NotInClass('binary ' + op)
+        if k == 'NewExpr' and node.get('cls') and all(isinstance(a, dict) for a in node.get('args', [])):
+            # Java value object: new Complex(re, im) is the pair of its arguments
+            sym = 'new_%s(%s)' % (node['cls'], ','.join(self.eval(a, st).canon() for a in node.get('args', [])))
+            self.types[sym] = node['cls']
+            return Rat.sym(sym)
         if k == 'ArraySubscriptExpr' or k == 'MemberExpr':
             ct = self.const_table_read(node, st)
             if ct is not None:
@@ -1263,6 +1313,10 @@ class Interp:
         if name in cache:
             return cache[name]
         f = None
+        extra = getattr(self, 'extra_inlinable', None)
+        if extra and name in extra and extra[name] is not self.func and extra[name].get('body'):
+            cache[name] = extra[name]
+            return extra[name]
         try:
             cand = self.prog.func(name, unit=self.func.get('unit'), required=False)
         except Exception:
@@ -1673,7 +1727,14 @@ class Interp:
                 key_ = h.env[vid].canon()
                 old_ = h.facts.get(key_)
                 h.facts[key_] = self._meet(old_, bound) if old_ is not None else bound.copy()
-            h.events.append(Event('loop-begin', node=node, id=lid, loop=h.loopdepth))
+            lb_ = Event('loop-begin', node=node, id=lid, loop=h.loopdepth)
+            # the value of the bound at loop entry (`v < bound`): what the loop ranges over, whatever the bound is called here
+            if cond is not None and cond.get('k') == 'BinaryOperator' and cond.get('op') in ('<', '<=') and len(cond.get('c', [])) == 2:
+                try:
+                    lb_.value = self.eval(cond['c'][1], h)
+                except NotInClass:
+                    lb_.value = None
+            h.events.append(lb_)
             if cond is not None:
                 t, _ = self.branch(cond, [h])
             else:
